@@ -10,6 +10,7 @@ package main
 
 import (
 	"fmt"
+	"go/types"
 	"sort"
 	"strings"
 
@@ -289,4 +290,90 @@ func ruleStaleIndexAcrossSections(r *Run) {
 	if n == 0 {
 		r.ok("datatype:guarded-slice-loops", "no loop indexes a guarded slice under a lock with bounds computed under a lock", "-")
 	}
+}
+
+// ---------------------------------------------------------------------------------------------
+// R20.28 — values taken out of decoded JSON are type-tested, not asserted
+
+func init() {
+	register(ruleDef{ID: "R20.28", Prop: "C20", Tier: "quick", Floor: 5,
+		Title: "a well-formed JSON body never ends in a recovered panic: an element taken out of decoded JSON (a map[string]interface{} entry or a []interface{} element) is converted with the comma-ok form or inside a type switch, never with a bare x.(T)",
+		Fn:    ruleJSONAssertChecked})
+}
+
+func ruleJSONAssertChecked(r *Run) {
+	w := r.W
+	n := 0
+	for _, f := range w.RepoFuncs {
+		if len(f.Blocks) == 0 || strings.HasSuffix(w.fposFile(f), "_test.go") {
+			continue
+		}
+		p := relPkg(pkgPathOf(f))
+		if p != "datatype/neuronjson" && p != "datatype/keyvalue" && p != "datatype/annotation" {
+			continue
+		}
+		k := 0
+		for _, b := range f.Blocks {
+			for _, in := range b.Instrs {
+				ta, ok := in.(*ssa.TypeAssert)
+				if !ok {
+					continue
+				}
+				// the asserted value is an element of a generic JSON container
+				fromJSON := false
+				switch x := ta.X.(type) {
+				case *ssa.Lookup:
+					if mt, ok := x.X.Type().Underlying().(*types.Map); ok {
+						if _, isI := mt.Elem().Underlying().(*types.Interface); isI {
+							fromJSON = true
+						}
+					}
+				case *ssa.Extract:
+					if lk, ok := x.Tuple.(*ssa.Lookup); ok {
+						if mt, ok := lk.X.Type().Underlying().(*types.Map); ok {
+							if _, isI := mt.Elem().Underlying().(*types.Interface); isI && x.Index == 0 {
+								fromJSON = true
+							}
+						}
+					}
+					if nx, ok := x.Tuple.(*ssa.Next); ok {
+						_ = nx
+						fromJSON = isIfaceType(x.Type())
+					}
+				case *ssa.UnOp:
+					if ia, ok := x.X.(*ssa.IndexAddr); ok {
+						if st, ok := ia.X.Type().Underlying().(*types.Slice); ok {
+							if _, isI := st.Elem().Underlying().(*types.Interface); isI {
+								fromJSON = true
+							}
+						}
+					}
+				}
+				if !fromJSON {
+					continue
+				}
+				if _, isIface := ta.AssertedType.Underlying().(*types.Interface); isIface {
+					continue
+				}
+				n++
+				k++
+				safe := ta.CommaOk
+				if !safe && ta.X.Referrers() != nil {
+					for _, ref := range *ta.X.Referrers() {
+						if t2, ok := ref.(*ssa.TypeAssert); ok && t2.CommaOk && types.Identical(t2.AssertedType, ta.AssertedType) && t2.Block().Dominates(ta.Block()) {
+							safe = true
+						}
+					}
+				}
+				r.check(safe, fmt.Sprintf("%s:json-element-assert#%d", fname(f), k), "comma-ok form (or behind one)",
+					"an element of decoded JSON is converted with a bare type assertion: a body whose element has another JSON type (a number where a string is expected, a mixed list) panics; the panic is recovered and the request, although well formed, is answered with an internal error", w.pos(ta.Pos()))
+			}
+		}
+	}
+	r.check(n >= 5, "repo:json-element-assertions", fmt.Sprintf("%d assertions on elements of decoded JSON", n), "too few: rule needs review", "-")
+}
+
+func isIfaceType(t types.Type) bool {
+	_, ok := t.Underlying().(*types.Interface)
+	return ok
 }
